@@ -9,7 +9,8 @@ PROPERTY = "C03"
 FUNCTIONS = [
     "rdflib.plugins.serializers.nt._quote_encode", "rdflib.plugins.serializers.nt._quoteLiteral", "rdflib.plugins.parsers.ntriples.unquote",
     "rdflib.compat.decodeUnicodeEscape", "rdflib.term.Literal._quote_encode", "rdflib.term.Literal._literal_n3 (plain numeric branch)",
-    "rdflib.plugins.parsers.notation3.SinkParser.strconst", "xml.sax.saxutils.escape / quoteattr (as called by XMLWriter.text / attribute)",
+    "rdflib.plugins.parsers.notation3.SinkParser.strconst", "rdflib.plugins.serializers.jsonld.Converter.to_collection",
+    "rdflib.plugins.serializers.turtle.TurtleSerializer.isValidList", "rdflib.plugins.serializers.longturtle.LongTurtleSerializer.isValidList", "xml.sax.saxutils.escape / quoteattr (as called by XMLWriter.text / attribute)",
 ]
 STUBS = ["Literal._quote_encode is called unbound on a symbolic str receiver", "SinkParser without a sink",
          "expat is C code: the XML read side is a reference XML 1.0 unescaper written in the harness",
@@ -18,6 +19,102 @@ ASSUMPTIONS = ["claimed: literal lexical forms through the N-Triples, Turtle/N3 
                "back; not claimed: blank-node inlining, list detection, subject ordering, qname splitting, RDF/XML nesting, JSON-LD, "
                "HexTuples, TriX, termination on cyclic lists (graph-shaped code whose content cannot be symbolic)"]
 BODIES = dict(kern.BODIES)
+
+# ---- engine S on the list-detection code of the serializers ---------------------------------------------------
+MALFORMED = ["ok", "no-rest-last", "no-first-mid", "two-firsts", "extra-prop", "cycle", "dangling-rest"]
+
+
+def _chain(desc, F, args):
+    """concrete cells, symbolic members (SymIntLit: identity + truthiness, duplicates possible); defect by shape"""
+    from rdflib import BNode, Graph, RDF, URIRef
+
+    class CountingGraph(Graph):
+        """turns divergence of a list walker into a verdict (a step budget on triples() calls)"""
+        budget = 300
+
+        def triples(self, t):
+            self.budget -= 1
+            if self.budget < 0:
+                raise RuntimeError("diverged")
+            return super().triples(t)
+
+    n = desc["n"]
+    g = CountingGraph()
+    cells = [BNode("c%d" % i) for i in range(n)]
+    ms = [F.lit(args[i]) for i in range(n)]
+    extra = F.lit(args[n])
+    d = desc["defect"]
+    k = desc.get("at", n - 1)
+    for i in range(n):
+        if not (d == "no-first-mid" and i == k):
+            g.add((cells[i], RDF.first, ms[i]))
+        if i + 1 < n:
+            g.add((cells[i], RDF.rest, cells[i + 1]))
+    if d == "cycle":
+        g.add((cells[n - 1], RDF.rest, cells[0]))
+    elif d == "dangling-rest":
+        g.add((cells[n - 1], RDF.rest, BNode("nowhere")))
+    elif d != "no-rest-last":
+        g.add((cells[n - 1], RDF.rest, RDF.nil))
+    if d == "two-firsts":
+        g.add((cells[k], RDF.first, extra))
+    if d == "extra-prop":
+        g.add((cells[k], URIRef("urn:p"), extra))
+    g.add((URIRef("urn:s"), URIRef("urn:list"), cells[0]))
+    malformed = d != "ok"
+    if d == "two-firsts" and (extra is ms[k] or extra == ms[k]):
+        malformed = False  # the "second" rdf:first is the same triple
+    return g, cells, ms, malformed
+
+
+def s_list_jsonld(desc, F, *args):
+    """jsonld.Converter.to_collection: a well-formed list converts to exactly its members in order (or is declined with None,
+    in which case the cells are written as plain nodes); a malformed chain is never presented as a list"""
+    from rdflib.plugins.serializers.jsonld import Converter
+    from rdflib.plugins.shared.jsonld.context import Context
+    from .c04 import run_untraced
+    g, cells, ms, malformed = _chain(desc, F, args)
+    conv = run_untraced(lambda: Converter(Context(), False, False))
+    g.budget = 300
+    try:
+        out = conv.to_collection(g, cells[0])
+    except RuntimeError:
+        return "JSON-LD list conversion does not terminate on this chain (%s)" % desc["defect"]
+    if out is None:
+        return None
+    if malformed:
+        return "JSON-LD presents a malformed rdf:first/rdf:rest chain (%s) as a list" % desc["defect"]
+    if len(out) != len(ms):
+        return "JSON-LD list conversion loses or adds members"
+    for a, b in zip(out, ms):
+        if not (a is b or a == b):
+            return "JSON-LD list conversion changes a member or the order"
+    return None
+
+
+def s_list_turtle(desc, F, *args):
+    """TurtleSerializer / LongTurtleSerializer.isValidList: the ( ... ) shorthand may only be chosen for a well-formed chain"""
+    from rdflib.plugins.serializers.longturtle import LongTurtleSerializer
+    from rdflib.plugins.serializers.turtle import TurtleSerializer
+    from .c04 import run_untraced
+    g, cells, ms, malformed = _chain(desc, F, args)
+    cls = {"turtle": TurtleSerializer, "longturtle": LongTurtleSerializer}[desc["ser"]]
+    ser = run_untraced(lambda: cls(g))
+    g.budget = 300
+    try:
+        ok = ser.isValidList(cells[0])
+    except RuntimeError:
+        return "%s list detection does not terminate on this chain (%s)" % (desc["ser"], desc["defect"])
+    if ok and malformed:
+        return "%s would abbreviate a malformed chain (%s) as ( ... )" % (desc["ser"], desc["defect"])
+    if not malformed and not ok and not (ms[0] is None):
+        # declining a well-formed list is harmless for the round trip; only recorded for falsy heads etc. — not an error
+        return None
+    return None
+
+
+BODIES["s-list-jsonld"] = s_list_jsonld
+BODIES["s-list-turtle"] = s_list_turtle
 
 
 def obligations(tier, seed):
@@ -33,6 +130,17 @@ def obligations(tier, seed):
     obs.append(dict(oid="K/ttl-lit-long/len<=%d" % (n - 1), family="k-ttl-roundtrip-long", desc={"tail": " ."}, sig=[("s", "s")],
                     pre=["len(s) <= %d" % (n - 1)], budget=big))
     obs.append(dict(oid="K/xml-text/len<=%d" % n, family="k-xml-text", desc={}, sig=[("s", "s")], pre=["len(s) <= %d" % n], budget=big))
+    for n in ((2, 3) if tier == "quick" else (1, 2, 3, 4)):
+        for d in MALFORMED:
+            ats = [n - 1] if d in ("ok", "no-rest-last", "cycle", "dangling-rest") else list(range(n))
+            if d == "no-first-mid":
+                ats = [a for a in ats if a > 0]
+            for at in ats:
+                sig = [("m%d" % i, "i") for i in range(n + 1)]
+                obs.append(dict(oid="S/list-jsonld/%d/%s@%d" % (n, d, at), family="s-list-jsonld", desc={"n": n, "defect": d, "at": at}, sig=sig, budget=300))
+                for ser in ("turtle", "longturtle"):
+                    obs.append(dict(oid="S/list-%s/%d/%s@%d" % (ser, n, d, at), family="s-list-turtle",
+                                    desc={"n": n, "defect": d, "at": at, "ser": ser}, sig=sig, budget=300))
     for dt in ("integer", "decimal", "boolean"):
         obs.append(dict(oid="K/plain-num/%s" % dt, family="k-plain-num", desc={"dt": dt}, sig=[("s", "s")],
                         pre=["len(s) <= %d" % (4 if tier == "quick" else 5)], budget=big))
@@ -46,7 +154,10 @@ def bounds(tier):
             "k-xml-text": "every string of length <= %d" % n,
             "k-plain-num": "every lexical form of length <= %d valid for xsd:integer / decimal / boolean through the Turtle shorthand writer, "
                            "re-typed by the reader's numeric patterns" % (4 if tier == "quick" else 5),
-            "outside": "documents, graph topology, longer strings, double/float shorthand (floats)"}
+            "s-list-jsonld / s-list-turtle": "engine S on the list-detection code: rdf:first/rdf:rest chains of 2-3 (thorough 1-4) concrete cells with "
+                                             "symbolic members (falsy, duplicates) and 6 defects by shape; jsonld.Converter.to_collection returns exactly the "
+                                             "members or declines, never a list for a malformed chain; Turtle/LongTurtle isValidList never accepts a malformed chain",
+            "outside": "whole documents, blank-node inlining, subject ordering, qname splitting, RDF/XML, longer strings, double/float shorthand"}
 
 
 def finding_key(ob, cex, reason):
